@@ -13,6 +13,7 @@ import (
 	"math/big"
 
 	"github.com/dominant-strategies/go-quai/common"
+	"github.com/dominant-strategies/go-quai/core"
 	"github.com/dominant-strategies/go-quai/core/types"
 	"github.com/dominant-strategies/go-quai/core/vm"
 	"github.com/dominant-strategies/go-quai/params"
@@ -248,6 +249,10 @@ func GenFrames(t *rapid.T, o FramesOpts) *Case {
 				}
 			}
 		}
+	}
+	// the access list costs intrinsic gas: the budget always leaves room for execution
+	if intrinsic, err := core.IntrinsicGas(c.Tx.Data, c.Tx.AccessList, false); err == nil && c.Tx.Gas < intrinsic+250_000 {
+		c.Tx.Gas = intrinsic + 250_000
 	}
 	return c
 }
